@@ -238,6 +238,9 @@ func compare(t *core.T, api string, in, out mvt.Layers) {
 			}
 		}
 		for fi, e := range exp {
+			if skipEdited != nil && skipEdited(li, fi) {
+				continue
+			}
 			f := o.Features[fi]
 			if !wm.Equal(f.Geometry, e.geom) {
 				t.Violate("geometry", api, fmt.Sprintf("%T", e.geom), "layer %d %s: wrote %s, read %s", li, e.from, gen.Describe(e.geom), gen.Describe(f.Geometry))
@@ -293,9 +296,80 @@ func countGeoms(ls mvt.Layers) int {
 	return n
 }
 
+// snapshot is a deep copy of the layers taken before the library sees them:
+// the model is what the caller wrote, whatever Marshal does to its argument.
+func snapshot(ls mvt.Layers) mvt.Layers {
+	out := make(mvt.Layers, len(ls))
+	for i, l := range ls {
+		c := &mvt.Layer{Name: l.Name, Version: l.Version, Extent: l.Extent}
+		for _, f := range l.Features {
+			g := &geojson.Feature{ID: f.ID, Type: f.Type}
+			if f.Geometry != nil {
+				g.Geometry = orb.Clone(f.Geometry)
+			}
+			if f.Properties != nil {
+				g.Properties = geojson.Properties{}
+				for k, v := range f.Properties {
+					g.Properties[k] = v
+				}
+			}
+			c.Features = append(c.Features, g)
+		}
+		out[i] = c
+	}
+	return out
+}
+
+// skipEdited tells compare which decoded features the harness has edited on purpose.
+var skipEdited func(li, fi int) bool
+
+// scribble edits a decoded feature the way a caller might: every coordinate, every property.
+func scribble(f *geojson.Feature) {
+	for k := range f.Properties {
+		f.Properties[k] = "edited-by-the-caller"
+	}
+	if f.Properties != nil {
+		f.Properties["added-by-the-caller"] = true
+	}
+	var pts func(g orb.Geometry)
+	pts = func(g orb.Geometry) {
+		switch x := g.(type) {
+		case orb.MultiPoint:
+			for i := range x {
+				x[i] = orb.Point{-7, -7}
+			}
+		case orb.LineString:
+			pts(orb.MultiPoint(x))
+		case orb.Ring:
+			pts(orb.MultiPoint(x))
+		case orb.MultiLineString:
+			for _, l := range x {
+				pts(l)
+			}
+		case orb.Polygon:
+			for _, r := range x {
+				pts(r)
+			}
+		case orb.MultiPolygon:
+			for _, p := range x {
+				pts(p)
+			}
+		case orb.Collection:
+			for _, m := range x {
+				pts(m)
+			}
+		}
+	}
+	pts(f.Geometry)
+	f.ID = "edited"
+}
+
 // roundTrip marshals, unmarshals (plain and gzipped) and compares with the model.
-func roundTrip(t *core.T, ls mvt.Layers) (data []byte, ok bool) {
+func roundTrip(t *core.T, given mvt.Layers) (data []byte, ok bool) {
 	var err error
+	ls := given
+	given = nil
+	snap := snapshot(ls)
 	if t.Guard("mvt.Marshal", func() { data, err = mvt.Marshal(ls) }) {
 		return nil, false
 	}
@@ -316,7 +390,7 @@ func roundTrip(t *core.T, ls mvt.Layers) (data []byte, ok bool) {
 		t.Violate("unmarshal-error", "mvt.Unmarshal", "", "Unmarshal of Marshal's own output failed: %v\n%s", err, gen.DescribeLayers(ls))
 		return data, false
 	}
-	compare(t, "mvt.Unmarshal", ls, out)
+	compare(t, "mvt.Unmarshal", snap, out)
 	var gz []byte
 	if t.Guard("mvt.MarshalGzipped", func() { gz, err = mvt.MarshalGzipped(ls) }) {
 		return data, false
@@ -333,7 +407,7 @@ func roundTrip(t *core.T, ls mvt.Layers) (data []byte, ok bool) {
 		t.Violate("unmarshal-error", "mvt.UnmarshalGzipped", "", "UnmarshalGzipped of MarshalGzipped's output failed: %v", err)
 		return data, false
 	}
-	compare(t, "mvt.UnmarshalGzipped", ls, out2)
+	compare(t, "mvt.UnmarshalGzipped", snap, out2)
 	if t.Failed() {
 		return data, false
 	}
@@ -357,7 +431,23 @@ func roundTrip(t *core.T, ls mvt.Layers) (data []byte, ok bool) {
 	for i := range scratch {
 		scratch[i] = 0xAA // the caller reuses its read buffer
 	}
-	compare(t, "mvt.Unmarshal(input buffer reused afterwards)", ls, out3)
+	compare(t, "mvt.Unmarshal(input buffer reused afterwards)", snap, out3)
+	if t.Failed() {
+		return data, false
+	}
+	// the caller edits some of the decoded features in place: the others must not change with them
+	salt := t.Src.Intn(4, "editsalt")
+	edited := func(li, fi int) bool { return (li*5+fi*3+salt)%2 == 0 }
+	for li, l := range out3 {
+		for fi, f := range l.Features {
+			if edited(li, fi) {
+				scribble(f)
+			}
+		}
+	}
+	skipEdited = edited
+	compare(t, "mvt.Unmarshal(other decoded features edited afterwards)", snap, out3)
+	skipEdited = nil
 	return data, !t.Failed()
 }
 
